@@ -34,7 +34,7 @@ func ho17Classes(v string, def spg.CTFlag) spg.CTFlag {
 var ho17Separators = []string{"", "hyphen", "space", "comma", "period", "underscore", "digit", "none", "bogus"}
 var ho17SepChars = map[string]string{"": "-", "hyphen": "-", "space": " ", "comma": ",", "period": ".", "underscore": "_", "none": "", "bogus": ""}
 var ho17Schemes = []string{"", "none", "first", "all", "random", "one", "bogus"}
-var ho17Files = []string{"", "uno dos tres\n", "uno\ndos\nuno\ntres\n", "solo", "@long-line@", "Polish polish uno\n", "polish Polish 4ever\n"}
+var ho17Files = []string{"", "uno dos tres\n", "uno\ndos\nuno\ntres\n", "solo", "@long-line@", "Polish polish uno\n", "polish Polish 4ever\n", "100% %d a%sb\n"}
 
 // ho17File: the content of word file i; the last one is a 12 000-word list kept
 // on one line of more than 64 KiB, followed by a short line.
